@@ -128,21 +128,38 @@ def report_sites(ctx, fi: FuncInfo, mp: str):
             return prog.const(fi.module, call.args[0].elts[0])
         return None
 
+    def is_prep(s) -> bool:
+        """a statement that only prepares values for the report (no exit, no report, no call with an effect)"""
+        if not isinstance(s, (ast.Assign, ast.AnnAssign, ast.If, ast.Pass)):
+            return False
+        for n in ast.walk(s):
+            if isinstance(n, (ast.Raise, ast.Return, ast.Continue, ast.Break, ast.Yield, ast.Await)):
+                return False
+            if isinstance(n, ast.Call) and not (isinstance(n.func, ast.Name) and n.func.id in ("len", "str", "type", "repr", "tuple", "list", "sorted", "format", "int", "bool")) \
+                    and not (isinstance(n.func, ast.Attribute) and n.func.attr in ("format", "join", "get")):
+                return False
+            if isinstance(n, (ast.Attribute, ast.Subscript)) and isinstance(n.ctx, (ast.Store, ast.Del)):
+                return False
+        return True
+
     def scan(stmts):
         for i, s in enumerate(stmts):
             if isinstance(s, ast.If):
                 t = is_none_test(s.test, mp)
                 if t is not None:
                     rb, ab = (s.body, s.orelse) if t else (s.orelse, s.body)
-                    if len(rb) == 1 and rule_raise(rb[0]) and len(ab) == 1 and append_of(ab[0]) is not None:
-                        a = append_of(ab[0])
+                    if len(rb) == 1 and rule_raise(rb[0]) and ab and append_of(ab[-1]) is not None and all(is_prep(x) for x in ab[:-1]):
+                        a = append_of(ab[-1])
                         pairs.append(Pair(fi, s, rb[0], a, rule_raise(rb[0]), code_of(a), "if/else", helper=is_helper(rb[0], a)))
                         used.add(id(rb[0]))
                         used.add(id(a))
                         continue
                     # early raise followed by the append as the next statement
-                    if t and len(rb) == 1 and rule_raise(rb[0]) and not ab and i + 1 < len(stmts) and append_of(stmts[i + 1]) is not None:
-                        a = append_of(stmts[i + 1])
+                    j = i + 1
+                    while j < len(stmts) and append_of(stmts[j]) is None and is_prep(stmts[j]):
+                        j += 1
+                    if t and len(rb) == 1 and rule_raise(rb[0]) and not ab and j < len(stmts) and append_of(stmts[j]) is not None:
+                        a = append_of(stmts[j])
                         pairs.append(Pair(fi, s, rb[0], a, rule_raise(rb[0]), code_of(a), "early-raise", helper=is_helper(rb[0], a)))
                         used.add(id(rb[0]))
                         used.add(id(a))
